@@ -1,10 +1,20 @@
 #[cfg(test)]
 use portable_atomic::{AtomicBool, Ordering};
 use std::borrow::Cow;
+#[cfg(feature = "verif-hooks")]
+use crate::verif_sync::{Condvar, Mutex, MutexGuard};
+#[cfg(feature = "verif-hooks")]
+use std::sync::{Arc, Weak};
+#[cfg(not(feature = "verif-hooks"))]
 use std::sync::{Arc, Condvar, Mutex, MutexGuard, Weak};
 use std::time::Duration;
 #[cfg(not(target_arch = "wasm32"))]
 use std::time::Instant;
+#[cfg(feature = "verif-hooks")]
+use crate::verif_sync::thread;
+#[cfg(feature = "verif-hooks")]
+use std::{fmt, io};
+#[cfg(not(feature = "verif-hooks"))]
 use std::{fmt, io, thread};
 
 #[cfg(test)]
